@@ -75,3 +75,39 @@ class Reach:
             spec: {"entries": n, "lines": sorted(self.lines.get(spec, ()))}
             for spec, n in self.entries.items()
         }
+
+
+class LineMap:
+    """Whole-library line coverage under the monitors (diagnostic, armed only when VMON_COVMAP names a directory): every
+    first execution of a line of a ginjax source file is recorded, the location is then disabled, so the cost is one
+    callback per distinct line. Used by tools/covmap.py to list the library code no monitored workload ever ran."""
+
+    TOOL = 3
+
+    def __init__(self, root):
+        self.root = root
+        self.hit = {}
+        self.armed = False
+
+    def arm(self):
+        if not hasattr(sys, "monitoring"):
+            return
+        mon = sys.monitoring
+        try:
+            mon.use_tool_id(self.TOOL, "vmon-linemap")
+        except ValueError:
+            return
+        root = self.root
+
+        def on_line(code, line):
+            fn = code.co_filename
+            if fn.startswith(root):
+                self.hit.setdefault(fn[len(root):].lstrip("/"), set()).add(line)
+            return mon.DISABLE
+
+        mon.register_callback(self.TOOL, mon.events.LINE, on_line)
+        mon.set_events(self.TOOL, mon.events.LINE)
+        self.armed = True
+
+    def report(self):
+        return {f: sorted(v) for f, v in self.hit.items()}
